@@ -821,7 +821,7 @@ func (g *generator) enterNextFinallyFrame() (canContinue bool, ex *Exception) {
 // Returns nil if one of those has caught it.
 func (g *generator) propagateFromFinally(ex *Exception) *Exception {
 	vm := g.vm
-	for ex != nil && g.returning != nil && len(vm.tryStack) > 0 {
+	for ex != nil && len(vm.tryStack) > 0 {
 		tf := &vm.tryStack[len(vm.tryStack)-1]
 		if tf.catchPos != tryPanicMarker || tf.finallyRet != tryGeneratorMarker {
 			break
